@@ -21,6 +21,7 @@ import (
 	"sort"
 	"strings"
 	"sync"
+	"syscall"
 	"time"
 
 	"golang.org/x/crypto/ssh"
@@ -36,12 +37,16 @@ type Input struct {
 	SeedKeys  []string   `json:"seed_keys,omitempty"` // namespaces given a pemkey without pemcert (kill between the two Sets)
 	Kill      []string   `json:"kill,omitempty"`      // services of a first start that is killed ...
 	KillMs    int        `json:"kill_ms,omitempty"`   // ... this long after it began
-	Runs      [][]string `json:"runs"`                // services enabled in each completed start
+	Runs      [][]string `json:"runs"`                // service instances configured in each start
+	Overlap   []string   `json:"overlap,omitempty"`   // per start: "" | "overlap" (attempted while the previous start's process is still
+	// running on the directory) | "flock" (attempted while the harness holds badger's directory lock)
+	Wiring *Wiring `json:"wiring,omitempty"` // capture channels and [[filter]] sections of every start (nil: only the catch-all)
 }
 
 type Obs struct {
 	Disk0 *ChildObs  `json:"disk0"` // persisted state before the first completed start
 	Runs  []ChildObs `json:"runs"`
+	Lock  []bool     `json:"lock_held"` // per start: the directory lock was held elsewhere while it was attempted
 }
 
 // ---- child orchestration ----
@@ -92,6 +97,26 @@ func opKey() ([]byte, hx.B) {
 
 // spawn runs one child; killAfter >= 0: kill it that many ms after it reported ready.
 func spawn(job Job, dir, tag string, killAfter int) (*ChildObs, string) {
+	ob, crash, _ := spawnX(job, dir, tag, killAfter)
+	return ob, crash
+}
+
+// flockDir takes badger's directory lock (flock on the directory) the way another process would.
+func flockDir(dir string) func() {
+	f, err := os.Open(dir)
+	if err != nil {
+		return nil
+	}
+	if err := syscall.Flock(int(f.Fd()), syscall.LOCK_EX|syscall.LOCK_NB); err != nil {
+		f.Close()
+		return nil
+	}
+	return func() { syscall.Flock(int(f.Fd()), syscall.LOCK_UN); f.Close() }
+}
+
+// spawnX: as spawn; with job.Hold the child is left running once its observation is there
+// and the returned function kills it.
+func spawnX(job Job, dir, tag string, killAfter int) (*ChildObs, string, func()) {
 	for _, sv := range job.Services {
 		if sv == "ssh-authk" {
 			k, _ := opKey()
@@ -133,24 +158,50 @@ func spawn(job Job, dir, tag string, killAfter int) (*ChildObs, string) {
 			cmd.Process.Kill()
 			<-done
 		}
-		return nil, ""
+		return nil, "", nil
 	}
-	select {
-	case err = <-done:
-	case <-time.After(180 * time.Second):
-		cmd.Process.Kill()
-		<-done
-		return nil, "start did not complete within 180 s"
+	var stop func()
+	if job.Hold {
+		stop = func() { cmd.Process.Kill(); <-done }
+		t0 := time.Now()
+	wait:
+		for {
+			if _, serr := os.Stat(job.Out); serr == nil {
+				break
+			}
+			select {
+			case err = <-done:
+				stop = nil
+				break wait
+			default:
+			}
+			if time.Since(t0) > 180*time.Second {
+				stop()
+				return nil, "start did not complete within 180 s", nil
+			}
+			time.Sleep(2 * time.Millisecond)
+		}
+	} else {
+		select {
+		case err = <-done:
+		case <-time.After(180 * time.Second):
+			cmd.Process.Kill()
+			<-done
+			return nil, "start did not complete within 180 s", nil
+		}
 	}
 	ob := &ChildObs{}
 	if data, rerr := os.ReadFile(job.Out); rerr == nil && json.Unmarshal(data, ob) == nil {
-		return ob, ""
+		return ob, "", stop
+	}
+	if stop != nil {
+		stop()
 	}
 	tail, _ := os.ReadFile(filepath.Join(dir, tag+".log"))
 	if len(tail) > 400 {
 		tail = tail[len(tail)-400:]
 	}
-	return nil, fmt.Sprintf("process ended without completing the start (%v): %s", err, strings.TrimSpace(string(tail)))
+	return nil, fmt.Sprintf("process ended without completing the start (%v): %s", err, strings.TrimSpace(string(tail))), nil
 }
 
 func runCase(in Input, dir string) (Obs, string) {
@@ -194,8 +245,47 @@ func runCase(in Input, dir string) (Obs, string) {
 			ob.Disk0.TmpFiles = map[string]hx.B{"token.tmp": *in.TmpFile}
 		}
 	}
+	mode := func(i int) string {
+		if i >= 0 && i < len(in.Overlap) {
+			return in.Overlap[i]
+		}
+		return ""
+	}
+	var stopPrev func()
+	defer func() {
+		if stopPrev != nil {
+			stopPrev()
+		}
+	}()
 	for i, svcs := range in.Runs {
-		r, crash := spawn(Job{Mode: "run", DataDir: data, Services: svcs}, dir, fmt.Sprintf("run%d", i), -1)
+		locked := false
+		var unlock func()
+		switch mode(i) {
+		case "overlap":
+			locked = stopPrev != nil
+		case "flock":
+			unlock = flockDir(filepath.Join(data, "badger.db"))
+			locked = unlock != nil
+		}
+		tag := fmt.Sprintf("run%d", i)
+		r, crash, stop := spawnX(Job{Mode: "run", DataDir: data, Services: svcs, Wiring: in.Wiring, Hold: mode(i+1) == "overlap"}, dir, tag, -1)
+		if unlock != nil {
+			unlock()
+		}
+		if stopPrev != nil { // the earlier process goes away once the overlapping attempt is over
+			stopPrev()
+			stopPrev = nil
+		}
+		ob.Lock = append(ob.Lock, locked)
+		if crash != "" && locked {
+			// expected outcome is a refusal to start; anything else that ends the process is reported
+			logb, _ := os.ReadFile(filepath.Join(dir, tag+".log"))
+			if !strings.Contains(string(logb), "Cannot acquire directory lock") {
+				return ob, fmt.Sprintf("start %d (store locked elsewhere): %s", i+1, crash)
+			}
+			ob.Runs = append(ob.Runs, ChildObs{Failed: true})
+			continue
+		}
 		if crash != "" {
 			return ob, fmt.Sprintf("start %d: %s", i+1, crash)
 		}
@@ -206,6 +296,7 @@ func runCase(in Input, dir string) (Obs, string) {
 			return ob, fmt.Sprintf("start %d: %s", i+1, strings.Join(r.Errs, "; "))
 		}
 		ob.Runs = append(ob.Runs, *r)
+		stopPrev = stop
 	}
 	return ob, ""
 }
@@ -249,6 +340,60 @@ func coqBad(c *ChildObs) string {
 	return hx.CoqList(bad, "item")
 }
 
+var catNum = map[string]int{"catA": 10, "catB": 11, "catC": 12, "catD": 13}
+
+func chanNum(w *Wiring, name string) int {
+	if w != nil {
+		for i, c := range w.Channels {
+			if c == name {
+				return i + 1
+			}
+		}
+	}
+	return 99 // a name no [channel.*] section defines
+}
+
+func coqNs(xs []int) string {
+	var es []string
+	for _, x := range xs {
+		es = append(es, hx.CoqN(uint64(x)))
+	}
+	return hx.CoqList(es, "N")
+}
+
+func coqWiring(w *Wiring, r *ChildObs) (string, string, string) {
+	var chans []int
+	var filts []string
+	if w != nil {
+		for i := range w.Channels {
+			chans = append(chans, i+1)
+		}
+		for _, f := range w.Filters {
+			var cs, cats []int
+			for _, c := range f.Channels {
+				cs = append(cs, chanNum(w, c))
+			}
+			for _, c := range f.Categories {
+				cats = append(cats, catNum[c])
+			}
+			filts = append(filts, fmt.Sprintf("mkFilt %s %s", coqNs(cs), coqNs(cats)))
+		}
+	}
+	var deliv []string
+	for _, cat := range probeCats {
+		var as []string
+		for _, a := range r.Deliv[cat] {
+			tok := []byte(a.Token)
+			if !a.Has {
+				tok = nil
+			}
+			as = append(as, fmt.Sprintf("(%s, %s)", hx.CoqN(uint64(chanNum(w, a.Chan))), hx.CoqBytes(tok)))
+		}
+		deliv = append(deliv, fmt.Sprintf("(%s, %s)", hx.CoqN(uint64(catNum[cat])), hx.CoqList(as, "(N * bytes)")))
+	}
+	return coqNs(chans), hx.CoqList(filts, "filt"), hx.CoqList(deliv, "(N * list (N * bytes))")
+}
+
 func coqCase(id int, in Input, ob Obs) string {
 	var runs []string
 	for i, r := range ob.Runs {
@@ -267,8 +412,15 @@ func coqCase(id int, in Input, ob Obs) string {
 				pub = append(pub, fmt.Sprintf("(%s, %s)", coqItem[it.Name], hx.CoqBytes(o.Pub)))
 			}
 		}
-		runs = append(runs, fmt.Sprintf("mkRun %s %s %s %s %s %s %s", hx.CoqList(cfg, "inst"), hx.CoqBytes(r.Token),
-			hx.CoqN(uint64(r.TokenSeen)), coqDisk(&r), hx.CoqList(pub, "(item * bytes)"), hx.CoqList(seen, "bytes"), coqBad(&r)))
+		lock := i < len(ob.Lock) && ob.Lock[i]
+		if r.Failed {
+			runs = append(runs, fmt.Sprintf("mkRun (@nil inst) (@nil N) 0%%N (mkDisk None None []) [] (@nil bytes) [] %s true (@nil N) (@nil filt) []", hx.CoqBool(lock)))
+			continue
+		}
+		chans, filts, deliv := coqWiring(in.Wiring, &r)
+		runs = append(runs, fmt.Sprintf("mkRun %s %s %s %s %s %s %s %s false %s %s %s", hx.CoqList(cfg, "inst"), hx.CoqBytes(r.Token),
+			hx.CoqN(uint64(r.TokenSeen)), coqDisk(&r), hx.CoqList(pub, "(item * bytes)"), hx.CoqList(seen, "bytes"), coqBad(&r),
+			hx.CoqBool(lock), chans, filts, deliv))
 	}
 	d0 := ob.Disk0
 	if d0 == nil {
@@ -314,6 +466,32 @@ func genSet(r *hx.Rand, min int) []string {
 			return s
 		}
 	}
+}
+
+// genWiring: 1..3 channels; 1..4 filters, each naming 1..2 channels (now and then an
+// undefined one or the same twice) with 0..2 categories
+func genWiring(r *hx.Rand) *Wiring {
+	w := &Wiring{}
+	nc := r.Range(1, 3)
+	for i := 1; i <= nc; i++ {
+		w.Channels = append(w.Channels, fmt.Sprintf("c%d", i))
+	}
+	for i, nf := 0, r.Range(1, 4); i < nf; i++ {
+		var f Flt
+		for j, n := 0, r.Range(1, 2); j < n; j++ {
+			c := w.Channels[r.Intn(nc)]
+			if r.Chance(1, 10) {
+				c = "cX"
+			}
+			f.Channels = append(f.Channels, c)
+		}
+		for j, n := 0, r.Range(0, 2); j < n; j++ {
+			f.Categories = append(f.Categories, r.PickStr([]string{"catA", "catB", "catC"}))
+		}
+		f.Categories = dedup(f.Categories)
+		w.Filters = append(w.Filters, f)
+	}
+	return w
 }
 
 func dedup(xs []string) []string {
@@ -415,6 +593,59 @@ func generate(r *hx.Rand, tier string) []Input {
 	}
 	for _, h := range opts {
 		ins = append(ins, Input{Kind: "history-options", Reachable: true, Runs: h})
+	}
+	// (1d) the token as DELIVERED: one channel named by 1..3 filters, several channels, a
+	// channel twice in one filter, an undefined channel name, events admitted only by a later
+	// filter of their channel, a catch-all after a restricted filter; three starts each
+	wirings := []*Wiring{
+		{Channels: []string{"c1"}, Filters: []Flt{{[]string{"c1"}, []string{"catA"}}, {[]string{"c1"}, []string{"catB"}}, {[]string{"c1"}, []string{"catC"}}}},
+		{Channels: []string{"c1", "c2"}, Filters: []Flt{{[]string{"c1"}, []string{"catA"}}, {[]string{"c2"}, []string{"catB"}}, {[]string{"c1", "c2"}, []string{"catC"}}, {[]string{"c2", "c1"}, nil}}},
+		{Channels: []string{"c1"}, Filters: []Flt{{[]string{"c1"}, []string{"catA"}}, {[]string{"c1"}, nil}}},
+		{Channels: []string{"c1", "c2", "c3"}, Filters: []Flt{{[]string{"c1", "c1"}, []string{"catB"}}, {[]string{"cX", "c2"}, []string{"catA"}}, {[]string{"c3"}, []string{"catA", "catB"}}, {[]string{"c3"}, []string{"catD"}}}},
+		{Channels: []string{"c1"}, Filters: []Flt{{[]string{"c1"}, nil}}},
+	}
+	nw := 3
+	if big {
+		nw = 16
+	}
+	for k := 0; k < nw; k++ {
+		wirings = append(wirings, genWiring(r))
+	}
+	for k, w := range wirings {
+		in := Input{Kind: "delivery", Reachable: true, Wiring: w, Runs: tokenOnly(3)}
+		if k%4 == 1 { // with services: their own events pass through the same filters
+			in.Runs = [][]string{{"ssh", "ftp"}, {"ssh"}, {"ssh", "ftp", "agent"}}
+		}
+		ins = append(ins, in)
+	}
+	// (1e) starts attempted while the store's directory lock is held elsewhere: the previous
+	// start's process still running (overlapping processes), or a foreign flock
+	all5 := []string{"ssh", "ftp", "smtp", "ldap", "agent"}
+	ovl := []Input{
+		{Runs: [][]string{{"ssh", "ftp", "agent"}, {"ssh", "ftp", "agent"}, {"ssh", "ftp", "smtp", "agent"}, all5}, Overlap: []string{"", "overlap", "", ""}},
+		{Runs: [][]string{all5, {"ssh2", "ftp2"}, {"ssh", "ldap"}, all5, all5}, Overlap: []string{"", "", "overlap", "flock", ""}},
+		{Runs: [][]string{{}, {}, {}, {}}, Overlap: []string{"", "overlap", "flock", ""}, Wiring: wirings[1]},
+		{Runs: [][]string{{"ssh"}, {"ssh", "smtp"}, {"ssh", "smtp"}, {"ssh", "smtp", "agent"}}, Overlap: []string{"", "overlap", "overlap", ""}},
+		{Runs: [][]string{all5, all5, all5}, Overlap: []string{"", "flock", ""}},
+	}
+	if big {
+		for k := 0; k < 8; k++ {
+			n := r.Range(3, 6)
+			in := Input{}
+			for i := 0; i < n; i++ {
+				in.Runs = append(in.Runs, genSet(r, 1))
+				m := ""
+				if i > 0 && i < n-1 {
+					m = r.PickStr([]string{"", "overlap", "flock", "overlap"})
+				}
+				in.Overlap = append(in.Overlap, m)
+			}
+			ovl = append(ovl, in)
+		}
+	}
+	for _, in := range ovl {
+		in.Kind, in.Reachable = "overlap", true
+		ins = append(ins, in)
 	}
 	// (2) restart histories of length 2..5 with varying service sets
 	nh := 6
